@@ -3,7 +3,7 @@
 # store it under /verif/seeded/<prop>-<k>/, then apply it to /repo, run the property's check, and undo it.
 set -u
 prop=$1; k=$2; shift 2
-WT=/tmp/wt/$prop; OUT=$WT/_out
+WT=${SEED_WT:-/tmp/wt/$prop}; OUT=$WT/_out
 . /verif/env.sh
 diff=$OUT/change$k.diff; demo=$OUT/zz_demo_${k}_test.go.txt; meta=$OUT/meta$k.json
 [ -f "$diff" ] && [ -f "$demo" ] || { echo "missing deliverables"; exit 2; }
@@ -23,7 +23,7 @@ echo "== existing tests of the package with change"
 (cd $WT && go test -count=1 ./$dir/ 2>&1 | tail -2)
 git -C $WT checkout -q -- .
 if [ "$without" != 0 ] || [ "$with" = 0 ]; then echo "NOT CONFIRMED"; exit 3; fi
-id=$prop-$k; mkdir -p /verif/seeded/$id
+id=$prop-${SEED_K:-$k}; mkdir -p /verif/seeded/$id
 cp "$diff" /verif/seeded/$id/patch.diff; cp "$demo" /verif/seeded/$id/$name.txt; cp "$meta" /verif/seeded/$id/agent_meta.json 2>/dev/null
 echo "== applying to /repo and running checks"
 cd /repo && git apply "$diff" || exit 2
